@@ -260,6 +260,22 @@ pub fn secret(full: bool) -> ChatScn {
     s
 }
 
+/// "Joined successfully": with max_joins = 1 a refused JOIN (of an existing or a new
+/// channel, alone or inside a comma list) puts nobody on any roster.
+pub fn quota() -> ChatScn {
+    let mut s = scenario("c04-quota", false);
+    s.cfg.max_joins = Some(1);
+    s.cfg.label = "preconfigured-#y+max_joins1".into();
+    s.alphabet_for.retain(|(slot, t)| *slot < 2 && !t.starts_with("KICK") && !t.starts_with("NICK"));
+    for slot in 0..2 {
+        s.alphabet_for.push((slot, "JOIN #z"));
+        s.alphabet_for.push((slot, "JOIN #x,#z"));
+    }
+    s.goals = vec!["views-compared"];
+    s.step_oracle = None;
+    s
+}
+
 /// Rosters and the three views after a contended registration (see ghost.rs).
 pub fn ghost(full: bool) -> ChatScn {
     let mut s = super::ghost::ghost_scn("c04-ghost", &[Cat::Membership, Cat::ChanExistence, Cat::UserExistence, Cat::UserIdentity], full);
@@ -276,6 +292,7 @@ pub fn plan(quick: bool) -> Plan {
     let mut parts = vec![];
     parts.push(Part::Bfs(Box::new(ghost(!quick)), lim(if quick { 6 } else { 8 }, 2_000_000, if quick { 20.0 } else { 600.0 })));
     parts.push(Part::Bfs(Box::new(secret(!quick)), lim(if quick { 4 } else { 6 }, 2_000_000, if quick { 20.0 } else { 600.0 })));
+    parts.push(Part::Bfs(Box::new(quota()), lim(if quick { 4 } else { 6 }, 2_000_000, if quick { 20.0 } else { 600.0 })));
     if quick {
         parts.push(Part::Bfs(Box::new(scenario("c04-churn", false)), lim(6, 3_000_000, 40.0)));
     } else {
